@@ -1,5 +1,5 @@
 import McpModel.Base.Proto
-import McpModel.KeepAlive.Model
+import McpModel.KeepAlive.Monitor
 /-!
 Driver for E9 (C13).  One record = one keep-alive scenario under virtual time.
 
@@ -18,7 +18,8 @@ op tokens:
                   `A<d>` `M<d>` `E<d>`: the same results from a Ping that OVERRUNS: it returns after d
                   whatever its deadline (its write is blocked while the peer does not read).  In `kss` the
                   capital letter is the harness's finding that the ping returned the moment its blocked
-                  transport write returned.  Further tokens are ignored.
+                  transport write returned.  `tmnf=<ticks|->` (stream `http`): the ticks at which the foreign server
+                  reported ping as unsupported on a transient HTTP status.  Further tokens are ignored.
 observation:
   `pings=<instants|-> to=<time each ping was given until its deadline: one value if all equal, else v1/v2/… | -> close=<instants of Close|-> exit=<0|1> late=<n>`
   (`to`, `exit`, `late` are `-`/`1`/`0` for `kas`, where they cannot be observed from the peer).
@@ -28,9 +29,12 @@ observation:
   session's Close waits for it).
   `shut` and `wblk` depend on the peer and the transport, not on the loop: the model line copies them, the monitor checks `shut`.
 
-The model line is `KeepAlive.runCancel` rendered.  The monitor is the property itself: literal
-`I/2`, literal `max 1`, the closing tick found by searching for the first window of `T` consecutive
-failures — independent of `KeepAlive.step` and of the regenerated expressions.
+This file is the STRING LAYER only: token parser (`parseScenario`, `parseSess`, `parseObs`), renderer
+(`renderObs`) and clause texts (`Clause.text`).  The model line is `KeepAlive.modelObs` (Monitor.lean:
+`runCancel`, `warnsCancel`, `endAt`) rendered; the monitor is `KeepAlive.monitor` (Monitor.lean), bridged
+to the model by Bridge.lean and to the property text by Sound.lean.  The string layer is checked at run
+time on every record: the model's observation must survive rendering and parsing (`LIBDISC render/parse`
+otherwise).
 -/
 namespace KeepAlive
 open Proto
@@ -60,23 +64,16 @@ def natList (s : String) : Option (List Nat) :=
 
 def showNats (l : List Nat) : String := if l.isEmpty then "-" else ",".intercalate (l.map toString)
 
-structure Scenario where
-  real : Bool
-  I : Nat
-  t0 : Int
-  scripts : List Script
-  tc : Nat
-  sess : Bool := false
-  at1 : Option Nat := none
-  at2 : Nat := 0
-
 def parseScenario (real : Bool) (toks : List String) : Option Scenario := do
   let I ← (← kv toks "I").toNat?
   let t0 ← (← kv toks "T").toInt?
   let scripts ← parseScripts (← kv toks "script")
   let tc ← (← kv toks "cancel").toNat?
+  let tmnf ← match kv toks "tmnf" with
+    | some v => natList v
+    | none => some []
   if I == 0 then none else
-  return { real := real, I := I, t0 := t0, scripts := scripts, tc := tc }
+  return { real := real, I := I, t0 := t0, scripts := scripts, tc := tc, transientMnf := tmnf }
 
 def parseSess (toks : List String) : Option Scenario := do
   let sc ← parseScenario false toks
@@ -88,232 +85,118 @@ def parseSess (toks : List String) : Option Scenario := do
     return { sc with sess := true, at1 := at1, at2 := at2 }
   | _ => none
 
-def modelObs (sc : Scenario) (impl : String) : String :=
-  let s := runCancel sc.I sc.t0 sc.scripts sc.tc
-  let close := match s.closeAt with
-    | some c => toString c
-    | none => "-"
-  let to := if sc.real ∨ s.pings.isEmpty then "-" else toString (Generated.KeepAlive.pingTimeout sc.I)
-  let base := s!"pings={showNats s.pings} to={to} close={close} exit=1 late=0"
-  if sc.sess then
-    -- the goroutine returns when its call of session.Close returns, and that waits for blocked writes
-    let held : Nat := if s.status == .closed then ((kv (words impl) "wblk").bind String.toNat?).getD 0 else 0
-    let e := max (endAt sc.I sc.t0 sc.scripts sc.tc) held
-    let alive (t : Nat) : String := if t < e then "1" else "0"
-    let a1 := match sc.at1 with
-      | some t => alive t
-      | none => "-"
-    let shut := (kv (words impl) "shut").getD "?"
-    let wblk := match kv (words impl) "wblk" with
-      | some w => s!" wblk={w}"
-      | none => ""
-    s!"{base} warn={showNats (warnsCancel sc.I sc.t0 sc.scripts sc.tc)} shut={shut} live={a1}{alive sc.at2}{wblk}"
-  else base
+/-! ### The observation -/
 
-/-! ### The property monitor -/
+def parseDeadlines (to : String) : Deadlines :=
+  if to == "-" then .none
+  else match to.splitOn "/" with
+    | [v] => match v.toInt? with
+      | some x => .all x
+      | none => .each [none]
+    | vs => .each (vs.map String.toInt?)
 
-/-- What the property says one ping amounts to: answered / method-not-found / failed, the latter also
-when nothing came back within half an interval — unless the ping overran (then its result is what it
-returned, however late). 0 = answered, 1 = method-not-found, 2 = failed. -/
-def specOutcome (I : Nat) (s : Script) : Nat :=
-  match s.delay with
-  | none => 2
-  | some d =>
-    if d < I / 2 ∨ ¬ s.honours then (match s.kind with | .answer => 0 | .mnf => 1 | .error => 2) else 2
+def showDeadlines : Deadlines → String
+  | .none => "-"
+  | .all v => toString v
+  | .each vs => "/".intercalate (vs.map fun v => match v with
+    | some x => toString x
+    | none => "?")
 
-/-- The tick at which the property requires `Close`: the least `k` such that outcomes
-`k-T+1 … k` all failed, provided no method-not-found occurred up to `k`. -/
-def specCloseTick (T : Nat) (os : List Nat) : Option Nat :=
-  match (List.range (os.length + 1)).find? (fun k => T ≤ k && ((os.take k).drop (k - T)).all (· == 2)) with
-  | some k => if (os.take k).any (· == 1) then none else some k
-  | none => none
+def parseLive (c : Char) : Live :=
+  if c == '1' then .yes else if c == '0' then .no else if c == '-' then .unsampled else .bad
 
-def trailingFails (os : List Nat) : Nat := (os.reverse.takeWhile (· == 2)).length
+def showLive : Live → String
+  | .yes => "1" | .no => "0" | .unsampled => "-" | .bad => "?"
 
-/-- How long the property lets one ping last: the scripted delay, at most half an interval — or, for
-a ping whose write is blocked, until it returns. -/
-def specDur (I : Nat) (s : Script) : Nat :=
-  match s.delay with
-  | none => I / 2
-  | some d => if d < I / 2 ∨ ¬ s.honours then d else I / 2
-
-/-- One ping as the property sees it. -/
-structure SpecPing where
-  start : Nat
-  stop : Nat
-  outcome : Nat
-  overran : Bool
-
-/-- When the next ping is due after a ping issued at `last` and over at `free`: on the next tick of
-the grid `I, 2I, …`; a tick that fires while a ping is in flight stays pending (one, not more) and is
-served the moment that ping is over. -/
-def specNext (I last free : Nat) : Nat :=
-  let g := (last / I + 1) * I
-  if free > g then free else g
-
-/-- The pings the property expects before instant `tc` from a loop that goes on pinging. -/
-def specSched (I tc : Nat) : Nat → Nat → List Script → List SpecPing
-  | _, _, [] => []
-  | last, free, s :: t =>
-    let p := specNext I last free
-    if p < tc then
-      { start := p, stop := p + specDur I s, outcome := specOutcome I s, overran := ! s.honours && specDur I s > I / 2 }
-        :: specSched I tc p (p + specDur I s) t
-    else []
-
-/-- The shape of keepalive-F30: the ping in flight at the cancellation `tc` ran past a tick, and when it
-was over the loop served that pending tick — a ping at the very end of that ping — although it had
-been cancelled. -/
-def f30Shape (I tc : Nat) (sched : List SpecPing) (pings : List Nat) : Option String :=
-  match sched.getLast? with
-  | some l =>
-    if l.stop > tc ∧ l.stop ≥ (l.start / I + 1) * I ∧ pings.contains l.stop then
-      some s!"silent_stop: keepalive-F30: keep-alive sent a ping at {l.stop} although it was cancelled (the session's Close was called) at {tc}: the ping issued at {l.start} was in flight then and ended at {l.stop} with a tick pending, and the loop served the tick instead of the cancellation; keep-alive ends when the session is closed"
-    else none
-  | none => none
-
-/-- The additional clauses of the stream `sessions` (the property's last sentence): after the
-session's Close was called no ping is sent; nothing is logged and no goroutine is left once
-keep-alive had to end — `due`: at the closing ping's end, at the end of the ping that reported
-method-not-found, or at the Close call / the end of the ping in flight then; while it has not ended
-the goroutine exists; a session that keep-alive reports as closed has its connection closed. -/
-def monitorSess (sc : Scenario) (o : List String) (pings closes : List Nat) (kstar : Option Nat)
-    (os : List Nat) (m : Nat) (sched : List SpecPing) : Option String :=
+def parseSessObs (o : List String) : Option SessObs :=
   match (kv o "warn").bind natList, kv o "shut", kv o "live" with
   | some warn, some shut, some live =>
-    let tc := sc.tc
-    let endOf (k : Nat) : Nat := if k = 0 then 0 else ((sched[k - 1]?).map (·.stop)).getD 0
-    let byCancel : Bool := kstar.isNone ∧ ¬ os.any (· == 1)
-    -- when keep-alive closes the session its goroutine returns when session.Close does, and that waits
-    -- for transport writes that are blocked (`wblk`)
-    let held : Nat := if kstar.isSome then ((kv o "wblk").bind String.toNat?).getD 0 else 0
-    let due : Nat := if byCancel then max tc (endOf m) else max (endOf m) held
-    let why : String :=
-      if byCancel then s!"the session's Close was called at {tc}"
-      else if kstar.isSome then s!"keep-alive closed the session at tick {m}"
-      else s!"the peer reported ping as unsupported at tick {m}"
-    let afterClose : Option String :=
-      match pings.find? (· ≥ tc) with
-      | some p => f30Shape sc.I tc sched pings <|> some s!"silent_stop: keep-alive sent a ping at {p} although the session's Close was called at {tc}; keep-alive ends when the session is closed"
-      | none => none
-    let logged : Option String :=
-      match (warn ++ closes).find? (· > due) with
-      | some w => some s!"silent_stop: keep-alive logged a failed ping at {w}, after it had to end at {due} ({why}); keep-alive ends silently"
-      | none => none
-    let shutc : Option String :=
-      match closes with
-      | c :: _ =>
-        let wblk : Nat := ((kv o "wblk").bind String.toNat?).getD 0
-        match shut.toNat? with
-        | some sh =>
-          if sh ≤ c ∨ sh ≤ wblk then none
-          else some s!"closes_iff_T_consecutive: keep-alive reported closing the session at {c} but its connection was only closed at {sh}, although no transport write was blocked until then"
-        | none => some s!"closes_iff_T_consecutive: keep-alive reported closing the session at {c} but its connection was never closed"
-      | [] => none
-    let flag (a : String) (t : Nat) : Option String :=
-      if a == "1" ∧ t ≥ due then
-        some s!"silent_stop: the keep-alive goroutine (and its ticker) still exists at {t} although keep-alive had to end at {due} ({why}); no timer or goroutine may be left behind"
-      else if a == "0" ∧ t < due then
-        some s!"pings_at_ticks: the keep-alive goroutine is gone at {t} although the session is open and keep-alive only ends at {due}"
-      else if a == "0" ∨ a == "1" then none
-      else some s!"bad-observation: live={live}"
-    let chars := live.toList.map (fun c => String.singleton c)
-    let livec : Option String :=
-      match chars, sc.at1 with
-      | [a1, a2], some t1 => flag a1 t1 <|> flag a2 sc.at2
-      | [_, a2], none => flag a2 sc.at2
-      | _, _ => some s!"bad-observation: live={live}"
-    afterClose <|> logged <|> shutc <|> livec
-  | _, _, _ => some "bad-observation: warn/shut/live missing"
+    let cs := live.toList
+    some { warn := warn, shut := shut.toNat?
+           live1 := parseLive (cs.headD '?'), live2 := parseLive ((cs.drop 1).headD '?')
+           liveOk := cs.length == 2, liveRaw := live
+           wblk := (kv o "wblk").bind String.toNat? }
+  | _, _, _ => none
 
-/-- The time each ping was given until its deadline must be a fresh half interval. -/
-def monitorDeadline (I : Nat) (pings : List Nat) (to : String) : Option String :=
-  if to == "-" ∨ to == toString (I / 2) then none
-  else
-    let vs := to.splitOn "/"
-    match (vs.zipIdx).find? (fun (v, _) => v != toString (I / 2)) with
-    | none => none
-    | some (v, j) =>
-      if vs.length ≤ 1 then
-        some s!"close_time_bound: the ping deadline is {to}, not half the interval ({I / 2})"
-      else
-        let short : Bool := match v.toInt? with
-          | some x => x < (I / 2 : Nat)
-          | none => false
-        let at_ := ((pings[j]?).map toString).getD "?"
-        if short then
-          some s!"answer_resets: ping {j + 1} (issued at {at_}) was given {v} until its deadline, not a fresh ping timeout of half the interval ({I / 2}); a ping the peer answers within the ping timeout must not count as a miss"
-        else
-          some s!"close_time_bound: ping {j + 1} (issued at {at_}) was given {v} until its deadline, not half the interval ({I / 2})"
-
-def monitor (sc : Scenario) (impl : String) : Option String :=
+def parseObs (impl : String) : Option Obs :=
   let o := words impl
   match (kv o "pings").bind natList, kv o "to", (kv o "close").bind natList, kv o "exit", kv o "late" with
   | some pings, some to, some closes, some exit, some late =>
-    let I := sc.I
-    let T : Nat := if sc.t0 < 1 then 1 else sc.t0.toNat
-    let sched := specSched I sc.tc 0 0 sc.scripts
-    let os := sched.map (·.outcome)
-    let kstar := specCloseTick T os
-    let startOf (k : Nat) : Nat := if k = 0 then 0 else ((sched[k - 1]?).map (·.start)).getD 0
-    let stopOf (k : Nat) : Nat := if k = 0 then 0 else ((sched[k - 1]?).map (·.stop)).getD 0
-    let closing : Option String :=
-      match kstar, closes with
-      | none, [] => none
-      | some k, [] => some s!"closes_iff_T_consecutive: pings {k + 1 - T}..{k} all failed (threshold {T}) but the session was not closed"
-      | none, c :: _ =>
-        let seen := os.take pings.length
-        let m := trailingFails seen
-        if seen.getLast? == some 0 then
-          some s!"answer_resets: closed at {c} right after ping {seen.length} (issued at {startOf seen.length}), which the peer answers within its ping timeout (threshold {T}); a peer that answers is never closed by keep-alive"
-        else if 0 < m ∧ m < T ∧ (seen.drop (seen.length - T)).any (· == 0) then
-          some s!"answer_resets: closed at {c} after only {m} consecutive failed pings (threshold {T}); an answered ping resets the count"
-        else some s!"closes_iff_T_consecutive: closed at {c} although no {T} consecutive pings failed before the loop had to stop"
-      | some k, [c] =>
-        let pk := startOf k
-        let overran := ((sched[k - 1]?).map (·.overran)).getD false
-        let bound := if overran then stopOf k else pk + I / 2
-        if pings.length < k ∨ (pings.length > k ∧ (c < pk ∨ c ≥ specNext I pk (stopOf k))) then
-          some s!"closes_iff_T_consecutive: closed at {c} after {pings.length} pings; consecutive failure number {T} is ping {k} at {pk}"
-        else if c < pk then some s!"close_time_bound: closed at {c}, before ping {k} was issued at {pk}"
-        else if c > bound then
-          if overran then
-            some s!"close_time_bound: closed at {c}, later than the end ({bound}) of ping {k}, whose write was blocked until then"
-          else
-            some s!"close_time_bound: closed at {c}, later than one ping timeout (I/2) after ping {k} was issued at {pk}"
-        else none
-      | some _, _ => some s!"closes_iff_T_consecutive: Close called {closes.length} times"
-    let m : Nat := match kstar with
-      | some k => k
-      | none => match os.findIdx? (· == 1) with
-        | some j => j + 1
-        | none => os.length
-    let want := (sched.take m).map (·.start)
-    let onGrid : Bool := want == (List.range m).map (fun j => (j + 1) * I)
-    let ticks : Option String :=
-      if pings == want then none
-      else if pings.length > m ∧ pings.take m == want then
-        some s!"silent_stop: the loop went on pinging after it had to end with ping {m} (pings at {showNats pings})"
-      else if onGrid then
-        some s!"pings_at_ticks: pings at {showNats pings}, expected one at each of the first {m} ticks of {I}"
-      else
-        some s!"pings_at_ticks: pings at {showNats pings}, expected {showNats want}: one per tick of {I}, a tick that fires during a ping being served when that ping is over"
-    let f30 : Option String :=
-      if kstar.isNone ∧ ¬ os.any (· == 1) ∧ ¬ sc.real then f30Shape I sc.tc sched pings else none
-    let deadline : Option String := if sc.real ∨ pings.isEmpty then none else monitorDeadline I pings to
-    let quiet : Option String :=
-      if exit == "1" ∧ late == "0" then none
-      else some "silent_stop: the keep-alive goroutine or its ticker is still active after the loop ended"
-    let long : Option String :=
-      if ¬ sc.sess then none else
-      match (sc.scripts.zipIdx).find? (fun (s, _) => s.honours && (match s.delay with | some d => d > I / 2 | none => false)) with
-      | some (s, j) => some s!"ping_done_before_next_tick: ping {j + 1} lasted {s.delay.getD 0}, longer than its deadline of half an interval ({I / 2}), although its transport write was not blocked then"
-      | none => none
-    if sc.sess then
-      f30 <|> deadline <|> long <|> (monitorSess sc o pings closes kstar os m sched).filter (fun c => c.startsWith "silent_stop: keep-alive sent" ∨ c.startsWith "silent_stop: keepalive-F30")
-        <|> closing <|> ticks <|> monitorSess sc o pings closes kstar os m sched <|> quiet
-    else f30 <|> closing <|> deadline <|> ticks <|> quiet
-  | _, _, _, _, _ => some s!"bad-observation: {impl}"
+    some { pings := pings, to := parseDeadlines to, closes := closes, exit := exit == "1", quietAfter := late == "0",
+           sess := parseSessObs o }
+  | _, _, _, _, _ => none
+
+def renderObs (o : Obs) : String :=
+  let base := s!"pings={showNats o.pings} to={showDeadlines o.to} close={showNats o.closes} exit={if o.exit then "1" else "0"} late={if o.quietAfter then "0" else "1"}"
+  match o.sess with
+  | none => base
+  | some so =>
+    let shut := match so.shut with
+      | some n => toString n
+      | none => "-"
+    let wblk := match so.wblk with
+      | some w => toString w
+      | none => "-"
+    s!"{base} warn={showNats so.warn} shut={shut} live={showLive so.live1}{showLive so.live2} wblk={wblk}"
+
+/-! ### Clause texts (the monitor itself is Monitor.lean) -/
+
+def Why.text : Why → String
+  | .cancelled tc => s!"the session's Close was called at {tc}"
+  | .closedAt m => s!"keep-alive closed the session at tick {m}"
+  | .unsupportedAt m => s!"the peer reported ping as unsupported at tick {m}"
+
+def showOptInt : Option Int → String
+  | some x => toString x
+  | none => "?"
+
+def Clause.text : Clause → String
+  | .notClosed k T => s!"closes_iff_T_consecutive: pings {k + 1 - T}..{k} all failed (threshold {T}) but the session was not closed"
+  | .closedAfterAnswer c n start T => s!"answer_resets: closed at {c} right after ping {n} (issued at {start}), which the peer answers within its ping timeout (threshold {T}); a peer that answers is never closed by keep-alive"
+  | .closedFewFails c m T => s!"answer_resets: closed at {c} after only {m} consecutive failed pings (threshold {T}); an answered ping resets the count"
+  | .closedNoRun c T => s!"closes_iff_T_consecutive: closed at {c} although no {T} consecutive pings failed before the loop had to stop"
+  | .closedWrongPing c n T k pk => s!"closes_iff_T_consecutive: closed at {c} after {n} pings; consecutive failure number {T} is ping {k} at {pk}"
+  | .closedBeforePing c k pk => s!"close_time_bound: closed at {c}, before ping {k} was issued at {pk}"
+  | .closedLateOverran c bound k => s!"close_time_bound: closed at {c}, later than the end ({bound}) of ping {k}, whose write was blocked until then"
+  | .closedLate c k pk => s!"close_time_bound: closed at {c}, later than one ping timeout (I/2) after ping {k} was issued at {pk}"
+  | .closedTimes n => s!"closes_iff_T_consecutive: Close called {n} times"
+  | .wentOn m pings => s!"silent_stop: the loop went on pinging after it had to end with ping {m} (pings at {showNats pings})"
+  | .ticksGrid pings m I => s!"pings_at_ticks: pings at {showNats pings}, expected one at each of the first {m} ticks of {I}"
+  | .ticksPending pings want I => s!"pings_at_ticks: pings at {showNats pings}, expected {showNats want}: one per tick of {I}, a tick that fires during a ping being served when that ping is over"
+  | .f30 stop tc start => s!"silent_stop: keepalive-F30: keep-alive sent a ping at {stop} although it was cancelled (the session's Close was called) at {tc}: the ping issued at {start} was in flight then and ended at {stop} with a tick pending, and the loop served the tick instead of the cancellation; keep-alive ends when the session is closed"
+  | .f31 m pings closes => s!"silent_stop: keepalive-F31: the peer reported ping as unsupported (JSON-RPC -32601) at tick {m} on a transient HTTP status (500/502/503/504/429) and keep-alive did not end there (pings at {showNats pings}, closed at {showNats closes}): the streamable client drops the error body of a transient status, so the answer is counted as a miss; keep-alive ends silently when the peer reports ping as unsupported"
+  | .deadlineAll v I => s!"close_time_bound: the ping deadline is {v}, not half the interval ({I / 2})"
+  | .deadlineShort j at_ v I =>
+    let a := (at_.map toString).getD "?"
+    s!"answer_resets: ping {j + 1} (issued at {a}) was given {showOptInt v} until its deadline, not a fresh ping timeout of half the interval ({I / 2}); a ping the peer answers within the ping timeout must not count as a miss"
+  | .deadlineLong j at_ v I =>
+    let a := (at_.map toString).getD "?"
+    s!"close_time_bound: ping {j + 1} (issued at {a}) was given {showOptInt v} until its deadline, not half the interval ({I / 2})"
+  | .notQuiet => "silent_stop: the keep-alive goroutine or its ticker is still active after the loop ended"
+  | .pingLong j d I => s!"ping_done_before_next_tick: ping {j + 1} lasted {d}, longer than its deadline of half an interval ({I / 2}), although its transport write was not blocked then"
+  | .pingAfterClose p tc => s!"silent_stop: keep-alive sent a ping at {p} although the session's Close was called at {tc}; keep-alive ends when the session is closed"
+  | .loggedAfterEnd w due why => s!"silent_stop: keep-alive logged a failed ping at {w}, after it had to end at {due} ({why.text}); keep-alive ends silently"
+  | .shutLate c sh => s!"closes_iff_T_consecutive: keep-alive reported closing the session at {c} but its connection was only closed at {sh}, although no transport write was blocked until then"
+  | .shutNever c => s!"closes_iff_T_consecutive: keep-alive reported closing the session at {c} but its connection was never closed"
+  | .goroutineLeft t due why => s!"silent_stop: the keep-alive goroutine (and its ticker) still exists at {t} although keep-alive had to end at {due} ({why.text}); no timer or goroutine may be left behind"
+  | .goroutineGone t due => s!"pings_at_ticks: the keep-alive goroutine is gone at {t} although the session is open and keep-alive only ends at {due}"
+  | .badLive live => s!"bad-observation: live={live}"
+  | .badSess => "bad-observation: warn/shut/live missing"
+
+/-- Run-time self-check of the string layer: the model's observation must survive rendering and parsing
+(`liveRaw` is not part of the rendering). -/
+def selfCheck (m : Obs) : Option String :=
+  let norm (o : Obs) : Obs := { o with sess := o.sess.map fun so => { so with liveRaw := "" } }
+  if (parseObs (renderObs m)).map norm == some (norm m) then none
+  else some "LIBDISC render/parse: the model's observation does not survive the string layer"
+
+def judge (sc : Scenario) (impl : String) : Verdict :=
+  let o := parseObs impl
+  let m := modelObs sc (o.bind (·.sess))
+  let viol : Option String := match o with
+    | none => some s!"bad-observation: {impl}"
+    | some o => (monitor sc o).map Clause.text
+  { model := renderObs m, violated := viol <|> selfCheck m }
 
 def engine : Engine Unit where
   init := ()
@@ -324,11 +207,11 @@ def engine : Engine Unit where
       if kind == "ka" ∨ kind == "kas" then
         match parseScenario (kind == "kas") rest with
         | none => ((), { model := "bad-op" })
-        | some sc => ((), { model := modelObs sc impl, violated := monitor sc impl })
+        | some sc => ((), judge sc impl)
       else if kind == "kss" then
         match parseSess rest with
         | none => ((), { model := "bad-op" })
-        | some sc => ((), { model := modelObs sc impl, violated := monitor sc impl })
+        | some sc => ((), judge sc impl)
       else ((), { model := "bad-op" })
     | _ => ((), { model := "bad-op" })
 
